@@ -5,6 +5,7 @@
 package zzvrf
 
 import (
+	"reflect"
 	"encoding/json"
 	"fmt"
 	"os"
@@ -208,6 +209,13 @@ func Unreachable(label string) { Assert("unreachable: "+label, false) }
 
 // Symbolic reports whether the code runs under the symbolic engine.
 func Symbolic() bool { return false }
+
+// PeekBool reads a bool field (possibly unexported, possibly promoted from an embedded struct) of
+// the struct p points to - the state real code left in an object of a package that offers no
+// accessor for it. Under the engine the field is loaded from the object.
+func PeekBool(p interface{}, field string) bool {
+	return reflect.ValueOf(p).Elem().FieldByName(field).Bool()
+}
 
 // Failed returns the labels of the assertions that failed natively.
 func Failed() []string {
